@@ -50,7 +50,17 @@ var (
 	fnLocks []string
 	// calls of designated bookkeeping methods with the locks lexically held at the call
 	calls []string
+	// every method call made while some mutex is held: (caller, callee name, held mutexes)
+	heldCalls []heldCall
+	// mutexes each function acquires somewhere in its body, keyed by bare function name
+	acquires = map[string]map[string]bool{}
 )
+
+type heldCall struct {
+	fn, callee string
+	held       []string
+	line       int
+}
 
 // trackedCallees are methods whose callers must hold a lock the callee cannot take itself.
 var trackedCallees = map[string]bool{"addReadErr": true, "addSendErr": true, "handleModifyResponse": true}
@@ -142,6 +152,8 @@ type walker struct {
 	file string
 	fn   string
 	held []lockHeld
+	// recv is the name of the enclosing method's receiver ("" for functions)
+	recv string
 }
 
 func (w *walker) copyHeld() []lockHeld { return append([]lockHeld{}, w.held...) }
@@ -159,6 +171,20 @@ func (w *walker) lockCall(call *ast.CallExpr) (mu string, kind string, ok bool) 
 }
 
 func (w *walker) acquire(mu string, excl bool) {
+	base := w.fn
+	if i := strings.Index(base, ".func"); i >= 0 {
+		base = base[:i]
+	}
+	if i := strings.Index(base, ".go"); i >= 0 {
+		base = base[:i]
+	}
+	if i := strings.LastIndex(base, "."); i >= 0 {
+		base = base[i+1:]
+	}
+	if acquires[base] == nil {
+		acquires[base] = map[string]bool{}
+	}
+	acquires[base][mu] = true
 	for _, h := range w.held {
 		if h.mu != mu {
 			edges[edge{h.mu, mu}] = true
@@ -193,12 +219,21 @@ func (w *walker) expr(e ast.Expr) {
 			// a literal that is not started as a goroutine runs in the enclosing function
 			// (called directly, deferred or handed to a callee): it inherits the locks held where it
 			// is written; its own acquisitions end with it
-			sub := &walker{fset: w.fset, file: w.file, fn: w.fn + ".func", held: w.copyHeld()}
+			sub := &walker{fset: w.fset, file: w.file, fn: w.fn + ".func", held: w.copyHeld(), recv: w.recv}
 			sub.block(v.Body)
 			return false
 		case *ast.CallExpr:
 			if sel, ok := v.Fun.(*ast.SelectorExpr); ok && trackedCallees[sel.Sel.Name] && w.fset != nil {
 				calls = append(calls, fmt.Sprintf("(%s, %s, %s, %d)", leanStr(w.fn), leanStr(sel.Sel.Name), leanLocks(w.held), w.fset.Position(v.Pos()).Line))
+			}
+			// only calls on the method's own receiver are resolved (by name): x.m() while holding a
+			// mutex of x, where m acquires that mutex again
+			if sel, ok := v.Fun.(*ast.SelectorExpr); ok && len(w.held) > 0 && w.fset != nil && w.recv != "" && render(sel.X) == w.recv {
+				hs := []string{}
+				for _, h := range w.held {
+					hs = append(hs, h.mu)
+				}
+				heldCalls = append(heldCalls, heldCall{fn: w.fn, callee: sel.Sel.Name, held: hs, line: w.fset.Position(v.Pos()).Line})
 			}
 		case *ast.SelectorExpr:
 			if fieldOf(v) != "" {
@@ -291,7 +326,7 @@ func (w *walker) stmt(s ast.Stmt, inSelectWithAlt bool) {
 		w.call(v.Call, true)
 	case *ast.GoStmt:
 		if fl, ok := v.Call.Fun.(*ast.FuncLit); ok {
-			sub := &walker{fset: w.fset, file: w.file, fn: w.fn + ".go", held: nil}
+			sub := &walker{fset: w.fset, file: w.file, fn: w.fn + ".go", held: nil, recv: w.recv}
 			sub.block(fl.Body)
 		} else {
 			w.expr(v.Call)
@@ -389,6 +424,25 @@ func (w *walker) block(b *ast.BlockStmt) {
 	}
 }
 
+// reentrantFacts lists calls made while holding mutex M to a function that acquires M.
+func reentrantFacts() []string {
+	out := []string{}
+	seen := map[string]bool{}
+	for _, c := range heldCalls {
+		for _, m := range c.held {
+			if acquires[c.callee][m] {
+				k := fmt.Sprintf("(%s, %s, %s)", leanStr(c.fn), leanStr(c.callee), leanStr(m))
+				if !seen[k] {
+					seen[k] = true
+					out = append(out, k)
+				}
+			}
+		}
+	}
+	sort.Strings(out)
+	return out
+}
+
 func leanStr(s string) string { return "\"" + strings.ReplaceAll(s, "\"", "'") + "\"" }
 
 func leanLocks(l []lockHeld) string {
@@ -421,6 +475,9 @@ func main() {
 				name = strings.TrimPrefix(render(fd.Recv.List[0].Type), "*") + "." + name
 			}
 			w := &walker{fset: fset, file: rel, fn: name}
+			if fd.Recv != nil && len(fd.Recv.List) > 0 && len(fd.Recv.List[0].Names) > 0 {
+				w.recv = fd.Recv.List[0].Names[0].Name
+			}
 			w.block(fd.Body)
 			topLevelLocks(name, fd.Body)
 		}
@@ -457,7 +514,7 @@ func main() {
 		es = append(es, fmt.Sprintf("(%s, %s)", leanStr(e.from), leanStr(e.to)))
 	}
 	sort.Strings(es)
-	b.WriteString("]\n\n/-- (held, then acquired) -/\ndef lockEdges : List (String × String) := [" + strings.Join(es, ", ") + "]\n\n/-- (function, mutex, exclusive): held from a top-level Lock until return (deferred Unlock) -/\ndef fnLocks : List (String × String × Bool) := [\n  " + strings.Join(fnLocks, ",\n  ") + "\n]\n\n/-- (calling function, callee, locks held at the call, line) -/\ndef calls : List (String × String × List (String × Bool) × Nat) := [\n  " + strings.Join(calls, ",\n  ") + "\n]\n\nend Gribi.Facts\n")
+	b.WriteString("]\n\n/-- (held, then acquired) -/\ndef lockEdges : List (String × String) := [" + strings.Join(es, ", ") + "]\n\n/-- (function, mutex, exclusive): held from a top-level Lock until return (deferred Unlock) -/\ndef fnLocks : List (String × String × Bool) := [\n  " + strings.Join(fnLocks, ",\n  ") + "\n]\n\n/-- (calling function, callee, locks held at the call, line) -/\ndef calls : List (String × String × List (String × Bool) × Nat) := [\n  " + strings.Join(calls, ",\n  ") + "\n]\n\n/-- (caller, callee, mutex): a call made while holding a mutex that the callee (a function of these files, matched by name) acquires itself -/\ndef reentrant : List (String × String × String) := [" + strings.Join(reentrantFacts(), ", ") + "]\n\nend Gribi.Facts\n")
 	if *out == "" {
 		fmt.Print(b.String())
 		return
